@@ -151,7 +151,9 @@ class ClosAdapter(Adapter):
         return {'clo': make_closure(c['kind'], c['flag']), 'kind': c['kind'], 'flag': c['flag'], 'fam': 'unset'}
 
     def clone(self, w):
-        return {'clo': copy.deepcopy(w['clo']), 'kind': w['kind'], 'flag': w['flag'], 'fam': w['fam']}
+        # the grid array is ONE object for the life of a Domain (PRISM.cost hands the same array to every call): references
+        # a closure may keep to it survive the copy
+        return {'clo': copy.deepcopy(w['clo'], {id(self.r): self.r}), 'kind': w['kind'], 'flag': w['flag'], 'fam': w['fam']}
 
     def step(self, w, l):
         act, C = l['act'], w['clo']
@@ -168,7 +170,7 @@ class ClosAdapter(Adapter):
 
     def calculate(self, w, l):
         C = w['clo']
-        r = np.array(self.r)
+        r = self.r                      # the same array object on every call, as in PRISM.cost
         gamma = gamma_family(l['gamma'], len(r), self.rng('gamma', l['gamma'], w['kind']))
         if CANON[w['kind']] == 'MS' and C.potential is not None:
             # keep the Martynov-Sarkisov square root real where the potential is finite
